@@ -1,5 +1,6 @@
 import Iavl.Model.KV
 import Iavl.Generated.FactsOk
+import Iavl.Model.Flusher
 /-
   C05 — crash atomicity. The property is decided on the implementation by exhaustive enumeration of
   every boundary between two physical writes of every mutating operation (harness mode `crash`).
@@ -28,6 +29,29 @@ theorem flush_split_same_result (m : SMapB) (chunks : List (List BOp)) :
 theorem cut_image (m : SMapB) (chunks : List (List BOp)) (i : Nat) :
     (chunks.take i).foldl applyOps m = applyOps m (chunks.take i).flatten :=
   flush_split_same_result m (chunks.take i)
+
+/-- `BatchWithFlusher` (Model/Flusher.lean) neither loses, duplicates nor reorders an operation: the
+    concatenation of its physical writes is the logical sequence -/
+theorem flusher_preserves_operations (thr : Nat) (ops : List BOp) : (flushSplit thr ops).flatten = ops :=
+  flushSplit_flatten thr ops
+
+/-- hence the crash-free result does not depend on the threshold -/
+theorem flusher_result_independent_of_threshold (thr : Nat) (m : SMapB) (ops : List BOp) :
+    (flushSplit thr ops).foldl applyOps m = applyOps m ops := by
+  rw [flush_split_same_result, flushSplit_flatten]
+
+/-- an operation whose writes stay within the threshold (estimate: key and value lengths plus the 100
+    bytes the estimate adds) is ONE physical write, so a stop between physical writes leaves either the
+    image before it or the image after it: it is atomic. With the default threshold of 100000 bytes this is
+    every commit, deletion and rollback of fewer than about 100 KB of records; the recorded findings
+    K7 / K7c / K7f are exactly the operations beyond it. -/
+theorem atomic_within_threshold (thr : Nat) (m : SMapB) (ops : List BOp) (h : sizeOf ops + 100 ≤ thr) (i : Nat) :
+    ((flushSplit thr ops).take i).foldl applyOps m = m ∨
+    ((flushSplit thr ops).take i).foldl applyOps m = applyOps m ops := by
+  rw [single_write_when_small thr ops h]
+  cases i with
+  | zero => left; rfl
+  | succ j => right; simp [List.take]
 
 theorem default_threshold : Facts.defaultFlushThreshold = 100000 := Facts.numbering_ok.2.2
 
